@@ -19,6 +19,7 @@ def dRank : DPc → Nat
   | .pull => 4
   | .inNext => 3
   | .acquire _ => 2
+  | .checked _ => 1
   | .parked _ => 1
   | .done => 0
 
@@ -45,7 +46,8 @@ def slots (cfg : Cfg) (s : St) : Nat := (buf cfg - s.inFlight).toNat
 def nu (cfg : Cfg) (s : St) : Nat := slotWeight * slots cfg s + dRank s.disp + wSum s.ws + cRank s.cons
 
 theorem dRank_eqs : (∀ v, dRank (.sendIn v) = 7) ∧ dRank .pull = 4 ∧ dRank .inNext = 3 ∧
-    (∀ v, dRank (.acquire v) = 2) ∧ (∀ v, dRank (.parked v) = 1) ∧ dRank .done = 0 := by simp [dRank]
+    (∀ v, dRank (.acquire v) = 2) ∧ (∀ v, dRank (.checked v) = 1) ∧ (∀ v, dRank (.parked v) = 1) ∧
+    dRank .done = 0 := by simp [dRank]
 theorem wRank_eqs : (∀ k, wRank (.inF k) = 3) ∧ (∀ k v, wRank (.sendCh k v) = 2) ∧ wRank .idle = 1 ∧
     wRank .done = 0 := by simp [wRank]
 theorem cRank_eqs : cRank .next = 8 ∧ cRank .idle = 0 := by simp [cRank]
@@ -352,6 +354,7 @@ theorem delta_decreases {cfg : Cfg} {s s' : St} {l : Label} (hd : s.disp = .done
   | dPull => iter_cases h => (simp_all)
   | srcRet r => iter_cases h => (simp_all)
   | dAcquire => iter_cases h => (simp_all)
+  | dPark => iter_cases h => (simp_all)
   | dSend w => iter_cases h => (simp_all)
   | fRet w v =>
     iter_cases h =>
